@@ -33,6 +33,7 @@ deriving Repr
 
 def J.isArr : J → Bool | .arr _ => true | _ => false
 def J.isObj : J → Bool | .obj _ => true | _ => false
+def J.isNull : J → Bool | .null => true | _ => false
 
 /-- Python truthiness of a loaded JSON value -/
 def J.truthy : J → Bool
@@ -73,7 +74,7 @@ def findVar (vars : List XmlVar) (key : Str) (value : J) : Option XmlVar :=
   vars.findSome? fun var =>
     let varIsList := var.listElement || var.tokens
     if var.localName = key then
-      (if value.isArr = varIsList then some var else none)
+      (if value.isNull || value.isArr = varIsList then some var else none)   -- `value is None or …`
     else if wrapperName var = some key then
       match value with
       | .obj kvs =>
@@ -210,6 +211,8 @@ def bindDataclass (e : BEnv) (Γ : Ctx) (cfg : ParserConfig) : Nat → J → Cla
                       | none => throw (.leaked "KeyError"))
                    | _ => throw (.leaked "TypeError"))
                 else pure kv.2
+              -- `if value is None and var.list_element: continue` : a null stands for no items
+              if value.isNull && var.listElement then pure params else
               let v ← bindValue e Γ cfg fuel m var value false
               if var.init then pure (params.set var.name v)
               else do validateFixed e.py var.toVarCore v; pure params) []
